@@ -215,7 +215,7 @@ def render_out(events):
         if ev["t"] == "int": s = str(limbs_to_int(ev["i"]))
         elif ev["t"] == "bool": s = "true" if ev["i"][3] == 1 else "false"
         elif ev["t"] == "str": s = ev["s"]
-        else: raise ValueError(ev["t"])
+        else: s = "<%s>" % ev["t"]          # the text of void / composite values is not specified: runs printing them are never compared (sem_common.prescribe)
         out.append(s + ("\n" if ev["nl"] else ""))
     return "".join(out)
 
@@ -232,6 +232,8 @@ def parse_type(s, p):
     if s == "void": return T("void")
     if s.startswith("array<") and s.endswith(">"):
         return T("arr", "", [parse_type(s[6:-1], p)])
+    if s.startswith("List<") and s.endswith(">"):          # dynamic lists (spec/NanoLib.tla, NanoTypeLib.tla: TList)
+        return T("list", "", [parse_type(s[5:-1], p)])
     if s.startswith("HashMap<") and s.endswith(">"):
         return T("map", "", [parse_type(x, p) for x in _split_top(s[8:-1])])
     if s.startswith("fn("):
